@@ -43,7 +43,7 @@ ASSUMPTIONS = ['Manifest texts are valid UTF-8 and valid compressed streams (the
 DAMAGE = ['dup-line', 'drop-line', 'dup-ignore', 'unknown-tag', 'unknown-hash', 'whirlpool', 'bad-size', 'neg-size',
           'huge-size', 'esc-overflow', 'esc-above-unicode', 'esc-surrogate', 'esc-nul', 'esc-bad', 'empty-path',
           'abs-path', 'dotdot-path', 'names-dir', 'beneath-file', 'crlf', 'tabs', 'trailing-space', 'bad-timestamp',
-          'short-line', 'odd-checksum-count', 'ignore-top', 'ignore-dot', 'aux-no-files', 'aux-abs', 'dist-slash',
+          'short-line', 'odd-checksum-count', 'ignore-top', 'ignore-dot', 'aux-no-files', 'aux-abs', 'dup-timestamp', 'dup-timestamp', 'dist-slash',
           'manifest-self', 'manifest-cycle', 'manifest-cycle-3', 'manifest-back-ref', 'manifest-missing', 'dup-manifest-entry', 'blank-lines', 'long-line', 'unicode-space',
           'size-superscript', 'size-circled', 'size-arabic-indic', 'size-fullwidth', 'size-plus', 'size-underscore',
           'size-float', 'size-hex', 'hash-value-odd', 'tag-lowercase', 'tag-unicode', 'path-only-escape']
@@ -70,9 +70,15 @@ def generate(rng, tier, idx):
         pk = roles['package_dirs']
         for _ in range(rng.choice([1, 2])):
             k = rng.choice(['file-named-files', 'manifest-under-files', 'manifest-in-hidden', 'fifo', 'dir-named-ebuild',
-                            'metadata-xml-dir', 'manifest-dir', 'deep-files', 'empty-manifest-in-pkg', 'files-in-profiles'])
+                            'metadata-xml-dir', 'manifest-dir', 'deep-files', 'empty-manifest-in-pkg', 'files-in-profiles',
+                            'non-utf8-name', 'non-utf8-dir'])
             d = rng.choice(pk) if pk else 'x/y'
-            if k == 'file-named-files':
+            if k == 'non-utf8-name':
+                # a file name that is not valid UTF-8 (Latin-1 byte), as the filesystem hands it to Python
+                odd.append({'m': 'add', 'p': d + '/caf\udce9.txt', 'k': 'file', 'c': 'latin-1 name', 'parents': True})
+            elif k == 'non-utf8-dir':
+                odd.append({'m': 'add', 'p': d + '/d\udcff/inner.txt', 'k': 'file', 'c': 'in a directory with a non-UTF-8 name', 'parents': True})
+            elif k == 'file-named-files':
                 odd.append({'m': 'add', 'p': d + '/files', 'k': 'file', 'c': 'i am a file', 'parents': True})
             elif k == 'manifest-under-files':
                 odd.append({'m': 'add', 'p': d + '/files/Manifest', 'k': 'file', 'c': rng.choice(['', 'DATA x 1\n', 'junk\n']), 'parents': True})
@@ -127,8 +133,12 @@ def generate(rng, tier, idx):
         if k == 'lookup':
             o['path'] = rng.choice(info['need']) if info['need'] else 'x'
         ops.append(o)
+    odd = []
+    if rng.random() < 0.08:
+        dd = rng.choice([''] + subs)
+        odd.append({'m': 'add', 'p': (dd + '/' if dd else '') + rng.choice(['caf\udce9.txt', 'x\udc80y']), 'k': 'file', 'c': 'latin-1 name'})
     return {'prop': ID, 'mode': 'damage', 'order_key': '%016x' % rng.getrandbits(64), 'tree': g['tree'],
-            'manifests': g['manifests'], 'damage': dmg, 'ops': ops}
+            'manifests': g['manifests'], 'damage': dmg, 'ops': ops, 'odd': odd}
 
 
 def apply_damage(w, sc, d):
@@ -251,6 +261,12 @@ def apply_damage(w, sc, d):
         lines.append('AUX ' + (sl[1] if len(sl) > 1 else 'x') + ' 1')
     elif k == 'aux-abs':
         lines.append(('AUX /abs-aux 1', 'AUX \\x2F 1', 'AUX / 1', 'AUX //x 1')[d['idx'] % 4])
+    elif k == 'dup-timestamp':
+        # several TIMESTAMP lines are legal; only the first one found is refreshed by an update
+        lines.insert(0, 'TIMESTAMP 2019-01-01T00:00:00Z')
+        lines.append('TIMESTAMP 2021-06-01T12:00:00Z')
+        if d['idx'] % 2:
+            lines.append('TIMESTAMP 2021-06-01T12:00:00Z')
     elif k == 'dist-slash':
         lines.append('DIST a/b 1')
     elif k == 'manifest-self':
